@@ -598,7 +598,7 @@ class Povm(QOperation):
         atol = Settings.get_atol() if atol is None else atol
         sum_matrix = self._sum_matrix()
         identity = np.identity(self.dim, dtype=np.complex128)
-        return np.allclose(sum_matrix, identity, atol=atol)
+        return np.allclose(sum_matrix, identity, atol=atol, rtol=0.0)
 
     def _sum_matrix(self):
         size = [self.dim, self.dim]
